@@ -407,6 +407,29 @@ def _operator_calls(body, dropped):
     return out
 
 
+def _wrap_methods(body, wraps, dropped):
+    """T13: a call `RECV.m(..)` of a std method m named by the unit (`wrap=m,..` on the //@extract line) becomes
+    `RECV.__w_m(..)`: a method of a wrapper trait declared in the unit, implemented (external_body, with a trusted contract)
+    for exactly the std receiver types the unit lists, whose body is the std call itself. Used where this vstd gives the
+    std method a specification that is too weak to carry the property (str::len, Iterator::filter on a slice iterator) or
+    cannot take one (the provided method Iterator::enumerate); a second assume_specification would be rejected. Method
+    resolution (auto-ref, receiver type) is left to rustc: a receiver of another type does not compile (exit 2)."""
+    if not wraps:
+        return body
+    out = []
+    n = len(body)
+    for i, t in enumerate(body):
+        if t.kind == 'ident' and t.origin == 'orig' and t.text in wraps:
+            pv = prev_sig(body, i - 1)
+            nx = next_sig(body, i + 1)
+            if pv >= 0 and body[pv].text == '.' and nx < n and body[nx].text == '(':
+                dropped.append(('T13', 'method .%s( -> .__w_%s(' % (t.text, t.text), [t]))
+                out += lit('__w_%s' % t.text, 'T13')
+                continue
+        out.append(t)
+    return out
+
+
 class LoopCounter:
     def __init__(self):
         self.n = 0
@@ -746,7 +769,10 @@ def _closures(body, spec, ctr, dropped, used):
                             key = ('closure@', meth, nth)
                             if key in spec.sections:
                                 p0 = [x for x in params if x.sig()]
-                                pname = p0[0].text if (len(p0) == 1 and p0[0].kind == 'ident') else '__p%d' % k
+                                # a plain identifier, with or without a type annotation (`c`, `c: &&char`), is named as it is
+                                plain = p0 and p0[0].kind == 'ident' and p0[0].text not in ('mut', 'ref') and \
+                                    (len(p0) == 1 or (p0[1].text == ':' and not any(x.text == ',' for x in p0)))
+                                pname = p0[0].text if plain else '__p%d' % k
                                 cid = '%s:%s#%d' % (spec.name, meth, nth)
                                 used.add(key)
                                 if cid not in DROP_CLOSURE_SPECS:
@@ -1005,6 +1031,14 @@ def _subst_placeholders(text, lets, fname):
         return hits[0]
     text = re.sub(r'\$strlit<([^<>$]+)>', repstr, text)
 
+    def repstrnot(m):
+        # $strlitnot<TEXT> : the unique string literal of the body that does NOT contain TEXT
+        hits = sorted(set(t for t in lets.bodytexts if t.startswith('"') and m.group(1) not in t))
+        if len(hits) != 1:
+            raise Unsupported('%s: placeholder %s: %d matching string literals' % (fname, m.group(0), len(hits)))
+        return hits[0]
+    text = re.sub(r'\$strlitnot<([^<>$]+)>', repstrnot, text)
+
     def repf(m):
         k, i = int(m.group(1)), int(m.group(2))
         pats = lets.forpats
@@ -1153,7 +1187,7 @@ def _resolve_spec(spec, body, fname):
     if spec is None:
         return None
     alltext = ''.join(spec.sections.values()) + ''.join(a[1] + a[2] for a in spec.anchors)
-    if '$let' not in alltext and '$for<' not in alltext and '$recv<' not in alltext and '$strlit<' not in alltext:
+    if '$let' not in alltext and '$for<' not in alltext and '$recv<' not in alltext and '$strlit<' not in alltext and '$strlitnot<' not in alltext:
         return spec
     lets = LetList(_collect_lets(body))
     lets.forpats = _collect_for_patterns(body)
@@ -1167,7 +1201,7 @@ def _resolve_spec(spec, body, fname):
     return c
 
 
-def extract_fn(item, file, impl_key, spec, twin_false=False):
+def extract_fn(item, file, impl_key, spec, twin_false=False, wraps=()):
     """item: rsscan.Item of kind fn. Returns FnOut."""
     dropped = []
     orig_spec = spec
@@ -1229,6 +1263,7 @@ def extract_fn(item, file, impl_key, spec, twin_false=False):
     b = _drop_logging(body, dropped)
     b = _opaque_messages(b, dropped)
     b = _operator_calls(b, dropped)
+    b = _wrap_methods(b, wraps, dropped)
     cctr = LoopCounter()
     b = _closures(b, spec, cctr, dropped, used)
     if spec:
@@ -1311,7 +1346,7 @@ def extract_fn(item, file, impl_key, spec, twin_false=False):
         raise Unsupported('provenance check failed for %s: emitted source tokens are not the source minus T2/T3 spans, '
                           'in source order' % item.name)
     for t in out:
-        if t.origin not in ('orig', 'T3', 'T6', 'T7', 'T8', 'T9', 'T10', 'T12'):
+        if t.origin not in ('orig', 'T3', 'T6', 'T7', 'T8', 'T9', 'T10', 'T12', 'T13'):
             raise Unsupported('provenance: unknown origin %s' % t.origin)
     rt = [t.text for t in tokenize(render(out)) if t.sig()]
     if rt != [t.text for t in out if t.sig()]:
@@ -1484,7 +1519,7 @@ def build_unit(name, repo, template_path, overlay_path, twin_false=False, varian
     chunks = []   # list of ('text', str) | ('toks', [Tok], meta)
     probes = []
 
-    def emit_fn(file, hre, impl_item, fname, contract_only=False):
+    def emit_fn(file, hre, impl_item, fname, contract_only=False, wraps=()):
         sub = rsscan.split_items(impl_item.body_toks())
         hits = rsscan.find_item(sub, 'fn', fname)
         if len(hits) != 1:
@@ -1501,7 +1536,7 @@ def build_unit(name, repo, template_path, overlay_path, twin_false=False, varian
         if twin_false:
             probe = 'p%d' % len(probes)
             probes.append(probe)
-        fo = extract_fn(hits[0], file, hre, spec, probe)
+        fo = extract_fn(hits[0], file, hre, spec, probe, wraps=wraps)
         chunks.append(('fn', fo, file, hre))
 
     def process(lines, depth=0):
@@ -1555,10 +1590,12 @@ def build_unit(name, repo, template_path, overlay_path, twin_false=False, varian
                     chunks.append(('toks', _trim(toks), file))
                 elif kind == 'impl':
                     file, hre = a[2], a[3]
-                    fns, consts, conly, inherent = [], [], [], False
+                    fns, consts, conly, inherent, wraps = [], [], [], False, ()
                     for o in a[4:]:
                         if o.startswith('fns='):
                             fns = [x for x in o[4:].split(',') if x]
+                        elif o.startswith('wrap='):
+                            wraps = tuple(x for x in o[5:].split(',') if x)
                         elif o.startswith('consts='):
                             consts = [x for x in o[7:].split(',') if x]
                         elif o.startswith('contract='):
@@ -1600,7 +1637,7 @@ def build_unit(name, repo, template_path, overlay_path, twin_false=False, varian
                     for fn in conly:
                         emit_fn(file, hre, im, fn, contract_only=True)
                     for fn in fns:
-                        emit_fn(file, hre, im, fn)
+                        emit_fn(file, hre, im, fn, wraps=wraps)
                         chunks.append(('text', '\n'))
                     chunks.append(('text', '}\n'))
                 elif kind == 'uses':
@@ -1629,10 +1666,12 @@ def build_unit(name, repo, template_path, overlay_path, twin_false=False, varian
                 elif kind == 'implitems':
                     # like impl, but also copies associated `type X = ..;` items (trait impls)
                     file, hre = a[2], a[3]
-                    fns = []
+                    fns, wraps = [], ()
                     for o in a[4:]:
                         if o.startswith('fns='):
                             fns = [x for x in o[4:].split(',') if x]
+                        elif o.startswith('wrap='):
+                            wraps = tuple(x for x in o[5:].split(',') if x)
                     im = _find_impl(repo, file, hre, cache)
                     hdr = _trim(im.toks[im.lead_end:im.body_open])
                     chunks.append(('toks', hdr + lit(' {\n', 'T5'), file))
@@ -1642,7 +1681,7 @@ def build_unit(name, repo, template_path, overlay_path, twin_false=False, varian
                             chunks.append(('toks', _trim([t for t in it.toks if t.kind not in ('lcomment', 'bcomment')]), file))
                             chunks.append(('text', '\n'))
                     for fn in fns:
-                        emit_fn(file, hre, im, fn)
+                        emit_fn(file, hre, im, fn, wraps=wraps)
                         chunks.append(('text', '\n'))
                     chunks.append(('text', '}\n'))
                 else:
